@@ -59,7 +59,7 @@ def st_source(draw, ctx, n=None, kind=None, keys=None, min_n=0):
 
 def st_slice_form(n, m):
     bound = st.one_of(st.none(), st.integers(-n - 1, n + 1))
-    step = st.sampled_from([None, 1, -1, 2, -2, 3, -3])
+    step = st.sampled_from([None, None, 1, 1, -1, 2, -2, 3, -3])
     forms = [st.builds(lambda a, b, c: {'k': 'slice', 'a': a, 'b': b, 'c': c}, bound, bound, step)]
     if n >= 1:
         idx = st.lists(st.integers(-n, n - 1), min_size=0, max_size=n + 2)
@@ -206,7 +206,7 @@ def st_stage(draw, op, node, m, ctx, allowed, budget):
         return {'op': 'intersperse', 'how': draw(st.sampled_from(['method', 'function'])), 'ins': ins}
     if op == 'zip':
         o = draw(st_source(ctx, n=n))
-        o = draw(st_same_length_stage(o, ctx))
+        o = draw(st_same_length_stage(o, ctx, allowed))
         ins = [node, o]
         if draw(st.booleans()):
             ins = ins[::-1]
@@ -224,8 +224,10 @@ def st_stage(draw, op, node, m, ctx, allowed, budget):
 
 
 @st.composite
-def st_same_length_stage(draw, node, ctx):
-    choice = draw(st.sampled_from(['none', 'map', 'rev', 'shuffle', 'cache', 'sort']))
+def st_same_length_stage(draw, node, ctx, allowed=None):
+    need = {'map': 'map', 'rev': 'slice', 'shuffle': 'shuffle_once', 'cache': 'cache_lazy', 'sort': 'sort'}
+    choices = ['none'] + [c for c, op in need.items() if allowed is None or op in allowed]
+    choice = draw(st.sampled_from(choices))
     if choice == 'none':
         return node
     if choice == 'map':
